@@ -1634,13 +1634,15 @@ var (
 
 // wordsOK says whether the words of one method name are inside the domain of the check.
 var digitRun = regexp.MustCompile(`^[0-9]+$`)
+var asciiLower = regexp.MustCompile(`^[a-z]{2,}$`)
 
 func wordsOK(words []string) bool {
 	for i, w := range words {
 		switch {
 		case lowerWord.MatchString(w):
-		case i > 0 && digitRun.MatchString(w) && !digitRun.MatchString(words[i-1]) && !acronymWord.MatchString(words[i-1]):
-			// a run of digits behind a word (export42Report): a number, not a word
+		case i > 0 && digitRun.MatchString(w) && asciiLower.MatchString(words[i-1]) && (i+1 == len(words) || asciiLower.MatchString(words[i+1])):
+			// a run of digits behind a word and in front of the next one, both written in ASCII letters (export42Report):
+			// a number, not a word. Next to letters outside ASCII or to an acronym (café0XML) where the words end is in doubt.
 		case i == 0 && capitalWord.MatchString(w):
 		case acronymWord.MatchString(w):
 			if i > 0 && acronymWord.MatchString(words[i-1]) {
@@ -1717,7 +1719,7 @@ func genConcept(t *rapid.T) ConceptCase {
 		if rapid.IntRange(0, 7).Draw(t, "numberInName") == 7 && !pbt.Excluded("digits_in_method_names") {
 			at := rapid.IntRange(1, len(words)).Draw(t, "numberAt")
 			digits := rapid.StringMatching(`[0-9]{1,25}`).Draw(t, "number")
-			if !acronymWord.MatchString(words[at-1]) && (at == len(words) || !acronymWord.MatchString(words[at])) {
+			if asciiLower.MatchString(words[at-1]) && (at == len(words) || asciiLower.MatchString(words[at])) {
 				words = append(words[:at:at], append([]string{digits}, words[at:]...)...)
 			}
 		}
